@@ -362,6 +362,14 @@ func suiteConfig(r *rng, n int) {
 			}
 		}
 		emit("config", itoa(int64(i)), hx(defect), b2s(structOK), enc, "=>", class, probes, rt)
+		// single-field probes: one field of an otherwise valid minimal configuration takes a value from a pool of
+		// well-formed values and near misses; the verdict of Validate is compared with the Lean field rule
+		for k := 0; k < 3; k++ {
+			kind := cr.pick([]string{"name", "policy", "addr", "prefix", "divide"})
+			v := fieldValue(cr, kind)
+			emit("config", "field", kind, hx(v), "=>", b2s(fieldAccepted(kind, v)))
+			stat("field-" + kind)
+		}
 	}
 	configWatchHistory()
 }
@@ -426,4 +434,56 @@ func configWatchHistory() {
 	}
 	emit("config", "watch", res)
 	stat("watch-histories")
+}
+
+
+var fieldPools = map[string][]string{
+	"name": {"", "a", "c1", "exactly-twenty-chars", "twenty-one-characters", strings.Repeat("n", 19), strings.Repeat("n", 25),
+		strings.Repeat("\u65e5", 20), strings.Repeat("\u65e5", 21), strings.Repeat("\u00e9", 20) + "x", "caf\u00e9", "a b", "$HOME", " lead", "x\ty"},
+	"policy": {"", "first", "random", "roundRobin", "leastconn", "First", "RANDOM", "roundrobin", "leastConn", "round", "Robin", "least", "rst",
+		"first,random", "first ", " first", "o", "firstrandom", "leastconn\n"},
+	"addr": {"http://127.0.0.1:3015", "https://a.test", "HTTP://a.test", "Https://a.test:8443/x", "hTTps://a.test", "ftp://a.test", "localhost:3015",
+		"//127.0.0.1:1", "a.test/x", "ttp://a.test", "htt://a.test", "h2c://a.test", "http:/a.test", "http//a.test", ":http://x", "1http://x", "ht+tp://x",
+		"httpx://a.test", "xhttp://a.test", "https", "http:", "p://x", "s://a.test", "", "http://a.test:1/p?q=1"},
+	"prefix": {"/", "/api", "", "api", " /x", "//", "/\u00fc", "a/", "/a b", "?/"},
+	"divide": {"a:b", "a:", ":b", ":", "ab", "a:b:c", "", "a::b", "http://x:y", "X-H:v", "k:v w", "::"},
+}
+
+func fieldValue(r *rng, kind string) string {
+	pool := fieldPools[kind]
+	v := pool[r.intn(len(pool))]
+	if r.chance(15) && kind != "addr" {
+		// a random printable tail
+		for k := 0; k < 1+r.intn(24); k++ {
+			v += string(rune('a' + r.intn(26)))
+		}
+	}
+	return v
+}
+
+func fieldAccepted(kind, v string) bool {
+	c := &config.PikeConfig{
+		Caches:    []config.CacheConfig{{Name: "c", Size: 10, HitForPass: "5m"}},
+		Upstreams: []config.UpstreamConfig{{Name: "u", Servers: []config.UpstreamServerConfig{{Addr: "http://127.0.0.1:1"}}}},
+		Locations: []config.LocationConfig{{Name: "l", Upstream: "u"}},
+		Servers:   []config.ServerConfig{{Addr: ":1", Locations: []string{"l"}, Cache: "c"}},
+	}
+	switch kind {
+	case "name":
+		c.Caches[0].Name = v
+		c.Servers[0].Cache = v
+		if v == "" {
+			// an empty cache name on the server is the server's own required field: probe the cache's name alone
+			c.Servers = nil
+		}
+	case "policy":
+		c.Upstreams[0].Policy = v
+	case "addr":
+		c.Upstreams[0].Servers[0].Addr = v
+	case "prefix":
+		c.Locations[0].Prefixes = []string{v}
+	case "divide":
+		c.Locations[0].Rewrites = []string{v}
+	}
+	return c.Validate() == nil
 }
